@@ -446,7 +446,13 @@ func collectSignedHeaders(r *http.Request, headersToInclude []string) []pair {
 	for headerKey, headerValues := range r.Header {
 		headerKey = strings.ToLower(headerKey)
 		if includeInCanonicalHeaders(headerKey, headersToInclude) {
-			headerVal := strings.TrimSpace(strings.Join(headerValues, ","))
+			// SigV4 "Trimall": trim every value and collapse sequential spaces
+			// to a single space before joining multiple values with a comma.
+			trimmedValues := make([]string, len(headerValues))
+			for idx, headerValue := range headerValues {
+				trimmedValues[idx] = collapseSequentialSpaces(strings.TrimSpace(headerValue))
+			}
+			headerVal := strings.Join(trimmedValues, ",")
 			headers = append(headers, pair{
 				key: headerKey,
 				val: headerVal,
@@ -457,6 +463,30 @@ func collectSignedHeaders(r *http.Request, headersToInclude []string) []pair {
 		return cmp.Compare(a.key, b.key)
 	})
 	return headers
+}
+
+// collapseSequentialSpaces converts every run of spaces to a single space,
+// as the SigV4 canonical header rules (and the AWS SDK signers) do.
+func collapseSequentialSpaces(value string) string {
+	if !strings.Contains(value, "  ") {
+		return value
+	}
+	var collapsed strings.Builder
+	collapsed.Grow(len(value))
+	previousWasSpace := false
+	for idx := 0; idx < len(value); idx++ {
+		ch := value[idx]
+		if ch == ' ' {
+			if previousWasSpace {
+				continue
+			}
+			previousWasSpace = true
+		} else {
+			previousWasSpace = false
+		}
+		collapsed.WriteByte(ch)
+	}
+	return collapsed.String()
 }
 
 func generateCanonicalHeaders(r *http.Request, headersToInclude []string) string {
